@@ -92,12 +92,33 @@ Proof. unfold ns2_no_cache. destruct o; split; intros; congruence. Qed.
 Lemma K_ns2_reset_on_new_trial : ns2_reset_on_new_trial = None.
 Proof. reflexivity. Qed.
 
+(* DataField memo of a global-fit-parameter dependent field *)
+Lemma K_gfp_initial_value : gfp_initial_value = None.
+Proof. reflexivity. Qed.
+Lemma K_gfp_reset_on_new_trial : gfp_reset_on_new_trial = None.
+Proof. reflexivity. Qed.
+Lemma K_gfp_name_missing n l : gfp_name_missing n l = negb (existsb (Z.eqb n) l).
+Proof. reflexivity. Qed.
+Lemma K_gfp_value_differs x m : gfp_value_differs x m = false <-> m = Some x.
+Proof.
+  unfold gfp_value_differs. destruct m as [v|]; cbn.
+  - rewrite negb_false_iff, Z.eqb_eq. split; [intros; subst; auto | intros H; inversion H; auto].
+  - split; discriminate.
+Qed.
+Lemma K_gfp_skip_calc b : gfp_skip_calc b = negb b. Proof. reflexivity. Qed.
+Lemma K_gfp_is_srcevt b : gfp_is_srcevt b = b. Proof. reflexivity. Qed.
+Lemma K_gfp_store_value v : gfp_store_value v = v. Proof. reflexivity. Qed.
+Lemma K_tdm_has_gfp n : tdm_has_gfp n = (n >? 0). Proof. reflexivity. Qed.
+Lemma K_llh_calc_gfp b : llh_calc_gfp b = b. Proof. reflexivity. Qed.
+
 Global Opaque tdm_sid_initial tdm_init_bump tdm_src_bump tdm_pre_bump tdm_stat_bump tdm_gfp_bump
   tdm_src_skip tdm_pre_skip tdm_stat_skip tdm_gfp_skip grid_low grid_up
   lin_is_cached lin_x0_from lin_x1_from lin_key_sid lin_key_x0 lin_store_sid lin_store_x0
   par_sid_matches par_key_differs par_x1_from par_x0_arg par_x2_arg par_key_sid par_key_x1
   par_store_sid par_store_x1 pd_cache_invalid pd_store_sid pd_use_cache
-  i3_sid_none i3_sid_differs i3_key_differs ns2_no_cache ns2_reset_on_new_trial.
+  i3_sid_none i3_sid_differs i3_key_differs ns2_no_cache ns2_reset_on_new_trial
+  gfp_initial_value gfp_name_missing gfp_value_differs gfp_skip_calc gfp_is_srcevt gfp_store_value
+  tdm_has_gfp llh_calc_gfp gfp_reset_on_new_trial.
 
 (* ------------------------------------------------------------------ part 2 *)
 Section Refine.
@@ -110,7 +131,7 @@ Definition grid_ok : Prop := forall x y, glow W x = glow W y -> gup W x = gup W 
 Hypothesis Hgrid : grid_ok.
 
 Notation State := (state W).
-Notation Tv := (tv (data W) (src W)).
+Notation Tv := (tv (data W) (src W) (GV W)).
 
 Definition kle (k : option Z) (sid : Z) : Prop :=
   match k with Some k' => k' <= sid | None => True end.
@@ -121,14 +142,14 @@ Proof.
   intros E. inversion E. lia.
 Qed.
 
-Definition lin_ok (sid : Z) (vw : option (view (data W) (src W))) (sf : option (src W))
+Definition lin_ok (sid : Z) (vw : option (view (data W) (src W))) (sf : option (src W) * option (GV W))
   (ev : option Tv) (c : option Z * Z * option (LC W)) : Prop :=
   kle (fst (fst c)) sid /\
   forall v e x0c cl, vw = Some v -> ev = Some e -> c = (Some sid, x0c, cl) ->
     exists xf, x0c = glow W xf /\ in_grid W x0c = true /\ in_grid W (gup W xf) = true /\
       cl = Some (Lmk W x0c (gup W xf) (Fsig W (v, sf) e x0c) (Fsig W (v, sf) e (gup W xf))).
 
-Definition par_ok (sid : Z) (vw : option (view (data W) (src W))) (sf : option (src W))
+Definition par_ok (sid : Z) (vw : option (view (data W) (src W))) (sf : option (src W) * option (GV W))
   (ev : option Tv) (c : option Z * Z * option (PC W)) : Prop :=
   kle (fst (fst c)) sid /\
   forall v e x1c cp, vw = Some v -> ev = Some e -> c = (Some sid, x1c, cp) ->
@@ -141,32 +162,32 @@ Definition par_ok (sid : Z) (vw : option (view (data W) (src W))) (sf : option (
 Definition pdfc_ok (sid : Z) (c : pdfc W) (v0 : V W) : Prop :=
   p_sid c = Some sid -> forall w, p_pd c = Some w -> w = v0.
 
-Definition sig_ok (sid : Z) (vw : option (view (data W) (src W))) (sf : option (src W))
+Definition sig_ok (sid : Z) (vw : option (view (data W) (src W))) (sf : option (src W) * option (GV W))
   (ev : option Tv) (f : Z -> pdfc W) : Prop :=
   forall g, kle (p_sid (f g)) sid /\
     forall v e, vw = Some v -> ev = Some e -> pdfc_ok sid (f g) (Fsig W (v, sf) e g).
 
-Definition bkg_ok (sid : Z) (vw : option (view (data W) (src W))) (sf : option (src W))
+Definition bkg_ok (sid : Z) (vw : option (view (data W) (src W))) (sf : option (src W) * option (GV W))
   (c : pdfc W) : Prop :=
   kle (p_sid c) sid /\ forall v, vw = Some v -> pdfc_ok sid c (Fbkg W (v, sf)).
 
 (* the invariant: no key is newer than the state id, and every cache entry
    whose key matches the current key holds what recomputation would give *)
 Definition CInv (st : State) : Prop :=
-  lin_ok (s_sid st) (s_view st) (s_srcf st) (s_evd st) (s_lin st) /\
-  par_ok (s_sid st) (s_view st) (s_srcf st) (s_evd st) (s_par st) /\
-  sig_ok (s_sid st) (s_view st) (s_srcf st) (s_evd st) (s_sig st) /\
-  bkg_ok (s_sid st) (s_view st) (s_srcf st) (s_bkg st).
+  lin_ok (s_sid st) (s_view st) (s_ext st) (s_evd st) (s_lin st) /\
+  par_ok (s_sid st) (s_view st) (s_ext st) (s_evd st) (s_par st) /\
+  sig_ok (s_sid st) (s_view st) (s_ext st) (s_evd st) (s_sig st) /\
+  bkg_ok (s_sid st) (s_view st) (s_ext st) (s_bkg st).
 
 Definition abs (st : State) : sstate W :=
   mksst W (s_view st) (s_srcf st) (s_cur st) (s_evd st) (s_nsg st).
 
 (* any increase of the state id makes every entry stale *)
-Lemma CInv_bump st sid' vw sf cur ev nsg :
+Lemma CInv_bump st sid' vw sf cur ev nsg gk gv :
   CInv st -> s_sid st < sid' ->
-  CInv (mkst W sid' vw sf cur ev (s_lin st) (s_par st) (s_sig st) (s_bkg st) nsg).
+  CInv (mkst W sid' vw sf cur ev (s_lin st) (s_par st) (s_sig st) (s_bkg st) nsg gk gv).
 Proof.
-  intros (Hl & Hp & Hs & Hb) Hlt. unfold CInv; cbn.
+  intros (Hl & Hp & Hs & Hb) Hlt. unfold CInv, s_ext; cbn.
   destruct Hl as [Hl _]. destruct Hp as [Hp _]. destruct Hb as [Hb _].
   split; [|split; [|split]].
   - split; [apply (kle_stale _ _ _ Hl Hlt)|].
@@ -181,9 +202,9 @@ Qed.
 
 Lemma CInv_init_raw s0 :
   CInv (mkst W tdm_sid_initial None None s0 None (None, 0, None) (None, 0, None)
-             (fun _ => mkpdfc W None None) (mkpdfc W None None) None).
+             (fun _ => mkpdfc W None None) (mkpdfc W None None) None gfp_initial_value None).
 Proof.
-  unfold CInv, lin_ok, par_ok, sig_ok, bkg_ok, pdfc_ok; cbn.
+  unfold CInv, lin_ok, par_ok, sig_ok, bkg_ok, pdfc_ok, s_ext; cbn.
   repeat split; try exact I; intros; try discriminate; congruence.
 Qed.
 
@@ -198,7 +219,7 @@ Proof. apply CInv_calc_source, CInv_init_raw. Qed.
 
 Lemma CInv_set_cur st s :
   CInv st -> CInv (mkst W (s_sid st) (s_view st) (s_srcf st) s (s_evd st) (s_lin st) (s_par st)
-                        (s_sig st) (s_bkg st) (s_nsg st)).
+                        (s_sig st) (s_bkg st) (s_nsg st) (s_gkey st) (s_gv st)).
 Proof. intros H; exact H. Qed.
 
 Lemma CInv_change_source st s : CInv st -> CInv (change_source W C st s).
@@ -230,9 +251,10 @@ Qed.
 
 (* what sig_eval leaves untouched *)
 Definition frame (st st' : State) : Prop :=
-  s_sid st' = s_sid st /\ s_view st' = s_view st /\ s_srcf st' = s_srcf st /\
+  s_sid st' = s_sid st /\ s_view st' = s_view st /\ s_ext st' = s_ext st /\
   s_cur st' = s_cur st /\ s_evd st' = s_evd st /\ s_nsg st' = s_nsg st /\
-  s_lin st' = s_lin st /\ s_par st' = s_par st /\ s_bkg st' = s_bkg st.
+  s_lin st' = s_lin st /\ s_par st' = s_par st /\ s_bkg st' = s_bkg st /\
+  s_srcf st' = s_srcf st /\ s_gkey st' = s_gkey st /\ s_gv st' = s_gv st.
 
 Lemma frame_refl st : frame st st.
 Proof. unfold frame; repeat split. Qed.
@@ -241,12 +263,12 @@ Proof. unfold frame; intros; intuition congruence. Qed.
 
 Lemma sig_eval_spec st v e g st' t r :
   CInv st -> s_view st = Some v -> s_evd st = Some e ->
-  sig_eval W C st (v, s_srcf st) e g = (st', t, r) ->
-  r = pure_sig W (v, s_srcf st) e g /\ CInv st' /\ frame st st'.
+  sig_eval W C st (v, s_ext st) e g = (st', t, r) ->
+  r = pure_sig W (v, s_ext st) e g /\ CInv st' /\ frame st st'.
 Proof.
   intros (Hl & Hp & Hs & Hb) Ev Ee. unfold sig_eval, pure_sig.
   destruct (in_grid W g) eqn:Eg.
-  - destruct (pdf_get W C (s_sid st) (s_sig st g) (Fsig W (v, s_srcf st) e g)) as [[w c] b] eqn:Epg.
+  - destruct (pdf_get W C (s_sid st) (s_sig st g) (Fsig W (v, s_ext st) e g)) as [[w c] b] eqn:Epg.
     intros E; inversion E; subst; clear E.
     destruct (pdf_get_spec _ _ _ _ _ _ (proj1 (Hs g)) (proj2 (Hs g) v e Ev Ee) Epg) as (E1 & K1 & O1).
     subst w. split; [reflexivity|]. split; [|unfold frame; cbn; repeat split].
@@ -265,23 +287,24 @@ Proof. unfold pure_sig. destruct (in_grid W g); intros H; inversion H; auto. Qed
 
 (* replacing the line cache by a valid entry *)
 Lemma CInv_set_lin st c :
-  CInv st -> lin_ok (s_sid st) (s_view st) (s_srcf st) (s_evd st) c -> CInv (set_lin W st c).
+  CInv st -> lin_ok (s_sid st) (s_view st) (s_ext st) (s_evd st) c -> CInv (set_lin W st c).
 Proof. intros (Hl & Hp & Hs & Hb) H. unfold CInv; cbn. auto. Qed.
 Lemma CInv_set_par st c :
-  CInv st -> par_ok (s_sid st) (s_view st) (s_srcf st) (s_evd st) c -> CInv (set_par W st c).
+  CInv st -> par_ok (s_sid st) (s_view st) (s_ext st) (s_evd st) c -> CInv (set_par W st c).
 Proof. intros (Hl & Hp & Hs & Hb) H. unfold CInv; cbn. auto. Qed.
 
 Definition frame_i (st st' : State) : Prop :=
-  s_sid st' = s_sid st /\ s_view st' = s_view st /\ s_srcf st' = s_srcf st /\
-  s_cur st' = s_cur st /\ s_evd st' = s_evd st /\ s_nsg st' = s_nsg st /\ s_bkg st' = s_bkg st.
+  s_sid st' = s_sid st /\ s_view st' = s_view st /\ s_ext st' = s_ext st /\
+  s_cur st' = s_cur st /\ s_evd st' = s_evd st /\ s_nsg st' = s_nsg st /\ s_bkg st' = s_bkg st /\
+  s_srcf st' = s_srcf st /\ s_gkey st' = s_gkey st /\ s_gv st' = s_gv st.
 
 Lemma frame_frame_i a b : frame a b -> frame_i a b.
 Proof. unfold frame, frame_i; intuition. Qed.
 
 Lemma interp_lin_spec st v e x st' t r :
   CInv st -> s_view st = Some v -> s_evd st = Some e ->
-  interp_lin W C st (v, s_srcf st) e x = (st', t, r) ->
-  r = pure_lin W (v, s_srcf st) e x /\ CInv st' /\ frame_i st st'.
+  interp_lin W C st (v, s_ext st) e x = (st', t, r) ->
+  r = pure_lin W (v, s_ext st) e x /\ CInv st' /\ frame_i st st'.
 Proof.
   intros HI Ev Ee. unfold interp_lin, pure_lin.
   rewrite K_lin_x0_from, K_lin_key_sid, K_lin_key_x0, K_lin_x1_from.
@@ -297,17 +320,17 @@ Proof.
     split; [reflexivity|]. split; [unfold CInv; auto | unfold frame_i; repeat split].
   - (* miss *)
     clear Eh.
-    destruct (sig_eval W C st (v, s_srcf st) e (glow W x)) as [[st1 t0] r0] eqn:E0.
+    destruct (sig_eval W C st (v, s_ext st) e (glow W x)) as [[st1 t0] r0] eqn:E0.
     destruct (sig_eval_spec _ _ _ _ _ _ _ HI Ev Ee E0) as (R0 & I1 & F1).
     destruct r0 as [M0|er].
-    + destruct F1 as (Fs & Fv & Ff & Fc & Fe & Fn & Fl & Fp & Fb).
+    + destruct F1 as (Fs & Fv & Ff & Fc & Fe & Fn & Fl & Fp & Fb & Fsf & Fgk & Fgv).
       assert (Ev1 : s_view st1 = Some v) by congruence.
       assert (Ee1 : s_evd st1 = Some e) by congruence.
-      destruct (sig_eval W C st1 (v, s_srcf st) e (gup W x)) as [[st2 t1] r1] eqn:E1.
+      destruct (sig_eval W C st1 (v, s_ext st) e (gup W x)) as [[st2 t1] r1] eqn:E1.
       rewrite <- Ff in E1.
       destruct (sig_eval_spec _ _ _ _ _ _ _ I1 Ev1 Ee1 E1) as (R1 & I2 & F2).
       rewrite Ff in R1.
-      destruct F2 as (Gs & Gv & Gf & Gc & Ge & Gn & Gl & Gp & Gb).
+      destruct F2 as (Gs & Gv & Gf & Gc & Ge & Gn & Gl & Gp & Gb & Gsf & Ggk & Ggv).
       destruct r1 as [M1|er].
       * intros E; inversion E; subst; clear E.
         rewrite <- R0, <- R1. cbn.
@@ -319,10 +342,10 @@ Proof.
            exists x. repeat split; auto.
            assert (v' = v) by congruence. assert (e' = e) by congruence. subst v' e'.
            rewrite Gf, Ff. rewrite W0, W1. reflexivity.
-        -- unfold frame_i; cbn. repeat split; congruence.
+        -- unfold frame_i, s_ext in *; cbn. repeat split; congruence.
       * intros E; inversion E; subst; clear E.
         rewrite <- R0, <- R1. cbn. split; [reflexivity|]. split; [exact I2|].
-        unfold frame_i. repeat split; congruence.
+        unfold frame_i, s_ext in *. repeat split; congruence.
     + intros E; inversion E; subst; clear E. rewrite <- R0. cbn.
       split; [reflexivity|]. split; [exact I1 | apply frame_frame_i; exact F1].
 Qed.
@@ -330,8 +353,8 @@ Qed.
 
 Lemma interp_par_spec st v e x st' t r :
   CInv st -> s_view st = Some v -> s_evd st = Some e ->
-  interp_par W C st (v, s_srcf st) e x = (st', t, r) ->
-  r = pure_par W (v, s_srcf st) e x /\ CInv st' /\ frame_i st st'.
+  interp_par W C st (v, s_ext st) e x = (st', t, r) ->
+  r = pure_par W (v, s_ext st) e x /\ CInv st' /\ frame_i st st'.
 Proof.
   intros HI Ev Ee. unfold interp_par, pure_par.
   destruct (s_par st) as [[csid cx1] cp] eqn:Ep.
@@ -348,26 +371,26 @@ Proof.
     split; [reflexivity|]. split; [unfold CInv; auto | unfold frame_i; repeat split].
   - (* miss *)
     clear Eh.
-    destruct (sig_eval W C st (v, s_srcf st) e (gnear W (gnear W x - gdx W))) as [[st1 t0] r0] eqn:E0.
+    destruct (sig_eval W C st (v, s_ext st) e (gnear W (gnear W x - gdx W))) as [[st1 t0] r0] eqn:E0.
     destruct (sig_eval_spec _ _ _ _ _ _ _ HI Ev Ee E0) as (R0 & I1 & F1).
     destruct r0 as [M0|er].
-    + destruct F1 as (Fs & Fv & Ff & Fc & Fe & Fn & Fl & Fp & Fb).
+    + destruct F1 as (Fs & Fv & Ff & Fc & Fe & Fn & Fl & Fp & Fb & Fsf & Fgk & Fgv).
       assert (Ev1 : s_view st1 = Some v) by congruence.
       assert (Ee1 : s_evd st1 = Some e) by congruence.
-      destruct (sig_eval W C st1 (v, s_srcf st) e (gnear W x)) as [[st2 t1] r1] eqn:E1.
+      destruct (sig_eval W C st1 (v, s_ext st) e (gnear W x)) as [[st2 t1] r1] eqn:E1.
       rewrite <- Ff in E1.
       destruct (sig_eval_spec _ _ _ _ _ _ _ I1 Ev1 Ee1 E1) as (R1 & I2 & F2).
       rewrite Ff in R1.
-      destruct F2 as (Gs & Gv & Gf & Gc & Ge & Gn & Gl & Gp & Gb).
+      destruct F2 as (Gs & Gv & Gf & Gc & Ge & Gn & Gl & Gp & Gb & Gsf & Ggk & Ggv).
       destruct r1 as [M1|er].
       * assert (Ev2 : s_view st2 = Some v) by congruence.
         assert (Ee2 : s_evd st2 = Some e) by congruence.
-        assert (Hf2 : s_srcf st2 = s_srcf st) by congruence.
-        destruct (sig_eval W C st2 (v, s_srcf st) e (gnear W (gnear W x + gdx W))) as [[st3 t2] r2] eqn:E2.
+        assert (Hf2 : s_ext st2 = s_ext st) by congruence.
+        destruct (sig_eval W C st2 (v, s_ext st) e (gnear W (gnear W x + gdx W))) as [[st3 t2] r2] eqn:E2.
         rewrite <- Hf2 in E2.
         destruct (sig_eval_spec _ _ _ _ _ _ _ I2 Ev2 Ee2 E2) as (R2 & I3 & F3).
         rewrite Hf2 in R2.
-        destruct F3 as (Hs3 & Hv3 & Hf3 & Hc3 & He3 & Hn3 & Hl3 & Hp3 & Hb3).
+        destruct F3 as (Hs3 & Hv3 & Hf3 & Hc3 & He3 & Hn3 & Hl3 & Hp3 & Hb3 & Hsf3 & Hgk3 & Hgv3).
         destruct r2 as [M2|er].
         -- intros E; inversion E; subst; clear E.
            rewrite <- R0, <- R1, <- R2. cbn.
@@ -380,60 +403,176 @@ Proof.
               repeat split; auto.
               assert (v' = v) by congruence. assert (e' = e) by congruence. subst v' e'.
               rewrite Hf3, Hf2. rewrite W0, W1, W2. reflexivity.
-           ++ unfold frame_i; cbn. repeat split; congruence.
+           ++ unfold frame_i, s_ext in *; cbn. repeat split; congruence.
         -- intros E; inversion E; subst; clear E.
            rewrite <- R0, <- R1, <- R2. cbn. split; [reflexivity|]. split; [exact I3|].
-           unfold frame_i. repeat split; congruence.
+           unfold frame_i, s_ext in *. repeat split; congruence.
       * intros E; inversion E; subst; clear E.
         rewrite <- R0, <- R1. cbn. split; [reflexivity|]. split; [exact I2|].
-        unfold frame_i. repeat split; congruence.
+        unfold frame_i, s_ext in *. repeat split; congruence.
     + intros E; inversion E; subst; clear E. rewrite <- R0. cbn.
       split; [reflexivity|]. split; [exact I1 | apply frame_frame_i; exact F1].
 Qed.
 
 Lemma interp_spec st v e x st' t r :
   CInv st -> s_view st = Some v -> s_evd st = Some e ->
-  interp W C st (v, s_srcf st) e x = (st', t, r) ->
-  r = pure_interp W C (v, s_srcf st) e x /\ CInv st' /\ frame_i st st'.
+  interp W C st (v, s_ext st) e x = (st', t, r) ->
+  r = pure_interp W C (v, s_ext st) e x /\ CInv st' /\ frame_i st st'.
 Proof.
   unfold interp, pure_interp. destruct (c_par C); [apply interp_par_spec | apply interp_lin_spec].
 Qed.
 
 Lemma CInv_set_bkg_nsg st c n :
-  CInv st -> bkg_ok (s_sid st) (s_view st) (s_srcf st) c -> CInv (set_bkg_nsg W st c n).
+  CInv st -> bkg_ok (s_sid st) (s_view st) (s_ext st) c -> CInv (set_bkg_nsg W st c n).
 Proof. intros (Hl & Hp & Hs & Hb) H. unfold CInv; cbn. auto. Qed.
 
-(* one evaluation: same output as the cache-free evaluation, invariant kept *)
-Lemma evaluate_spec st ns x st' r t :
-  CInv st -> evaluate W C st ns x = (st', r, t) ->
-  sstep W C (abs st) (Evaluate W ns x) = (abs st', OEval W r) /\ CInv st'.
+(* ---- the DataField memo of the global-fit-parameter dependent field *)
+Definition has_gfp : bool := has_gfp_field C.
+
+(* no such field: no values *)
+Definition NoG (st : State) : Prop := c_ngfp C <= 0 -> s_gv st = None.
+
+(* a plain field's column in the events array, whenever it carries remembered
+   parameter values, holds what the calculation function gives for them now *)
+Definition Memo (st : State) : Prop :=
+  c_gfp_srcevt C = false ->
+  forall k g v, s_gkey st = Some k -> s_gv st = Some g -> s_view st = Some v ->
+    g = Fg W v (s_srcf st) (s_cur st) k.
+
+(* configurations in which the memo is never consulted *)
+Definition memo_free : bool := c_gfp_srcevt C || (c_ngfp C <=? 0).
+
+Lemma Memo_free st : memo_free = true -> NoG st -> Memo st.
 Proof.
-  intros HI. unfold evaluate, sstep, abs; cbn [ss_view ss_evd ss_srcf ss_cur ss_nsg].
-  destruct (s_view st) as [v|] eqn:Ev; [|intros E; inversion E; subst; rewrite Ev; split; [reflexivity | exact HI]].
-  destruct (s_evd st) as [e|] eqn:Ee; [|intros E; inversion E; subst; rewrite Ev, Ee; split; [reflexivity | exact HI]].
-  destruct (interp W C st (v, s_srcf st) e x) as [[st1 t1] r1] eqn:Ei.
-  destruct (interp_spec _ _ _ _ _ _ _ HI Ev Ee Ei) as (R1 & I1 & F1).
-  destruct F1 as (Fs & Fv & Ff & Fc & Fe & Fn & Fb).
-  unfold pure_nsg, pure_eval. rewrite <- R1.
+  unfold memo_free, Memo, NoG. intros H HN Hs k g v _ Eg _.
+  rewrite Hs in H. cbn in H. apply Z.leb_le in H. rewrite (HN H) in Eg. discriminate.
+Qed.
+
+Lemma CInv_bump_g st sid' k v :
+  CInv st -> s_sid st < sid' -> CInv (set_sid W (set_g W st k v) sid').
+Proof.
+  intros H Hlt.
+  exact (CInv_bump st sid' (s_view st) (s_srcf st) (s_cur st) (s_evd st) (s_nsg st) k v H Hlt).
+Qed.
+
+Lemma CInv_bump_s st sid' : CInv st -> s_sid st < sid' -> CInv (set_sid W st sid').
+Proof.
+  intros H Hlt.
+  exact (CInv_bump st sid' (s_view st) (s_srcf st) (s_cur st) (s_evd st) (s_nsg st) (s_gkey st) (s_gv st) H Hlt).
+Qed.
+
+(* what gfp_step leaves untouched *)
+Definition frame_g (st st' : State) : Prop :=
+  s_view st' = s_view st /\ s_srcf st' = s_srcf st /\ s_cur st' = s_cur st /\
+  s_evd st' = s_evd st /\ s_nsg st' = s_nsg st.
+
+Lemma name_missing_no : gfp_name_missing 1 [0] = true.
+Proof. rewrite K_gfp_name_missing. reflexivity. Qed.
+Lemma name_missing_yes : gfp_name_missing 1 [0; 1] = false.
+Proof. rewrite K_gfp_name_missing. reflexivity. Qed.
+
+Lemma gfp_step_spec st v x st0 tg :
+  CInv st -> NoG st -> s_view st = Some v -> gfp_step W C st v x = (st0, tg) ->
+  CInv st0 /\ NoG st0 /\ frame_g st st0 /\
+  (Memo st -> Memo st0 /\ s_ext st0 = snd (full_tv W C v (s_srcf st) (s_cur st) x)).
+Proof.
+  intros HI HN Ev. unfold gfp_step, full_tv, has_gfp_field.
+  rewrite K_llh_calc_gfp, K_tdm_has_gfp, K_tdm_gfp_skip, K_gfp_is_srcevt, K_gfp_skip_calc,
+    K_gfp_store_value, K_tdm_gfp_bump.
+  destruct (c_ngfp C >? 0) eqn:Epos.
+  - assert (Hpos : c_ngfp C > 0) by (apply Z.gtb_lt in Epos; lia).
+    assert (E0 : (c_ngfp C =? 0) = false) by (apply Z.eqb_neq; lia).
+    rewrite E0. cbn [snd].
+    set (calc := if gfp_name_missing 1 (if c_gfp_srcevt C then [0] else match s_gv st with Some _ => [0; 1] | None => [0] end)
+                 then true else gfp_value_differs x (s_gkey st)).
+    destruct calc eqn:Ec; cbn [negb].
+    + (* (re)calculated *)
+      intros E; inversion E; subst; clear E.
+      split; [apply CInv_bump_g; [exact HI | cbn; lia]|].
+      split; [unfold NoG; intros; lia|].
+      split; [unfold frame_g; cbn; repeat split|].
+      intros _. split.
+      * unfold Memo; cbn. intros _ k g v' Ek Eg Ev'. inversion Ek; inversion Eg; subst.
+        assert (v' = v) by congruence. subst. reflexivity.
+      * unfold s_ext; cbn. reflexivity.
+    + (* the remembered values are re-used *)
+      intros E; inversion E; subst; clear E.
+      split; [apply CInv_bump_s; [exact HI | lia]|].
+      split; [unfold NoG in *; cbn; exact HN|].
+      split; [unfold frame_g; cbn; repeat split|].
+      intros HM. split; [unfold Memo in *; cbn; exact HM|].
+      unfold s_ext; cbn.
+      unfold calc in Ec. destruct (c_gfp_srcevt C) eqn:Es.
+      * rewrite name_missing_no in Ec. discriminate.
+      * destruct (s_gv st) as [g|] eqn:Eg.
+        -- rewrite name_missing_yes in Ec. apply K_gfp_value_differs in Ec.
+           rewrite (HM Es x g v Ec Eg Ev). reflexivity.
+        -- rewrite name_missing_no in Ec. discriminate.
+  - assert (Hle : c_ngfp C <= 0) by (destruct (Z.gtb_spec (c_ngfp C) 0); [discriminate | lia]).
+    intros E; inversion E; subst; clear E.
+    split; [exact HI|]. split; [exact HN|]. split; [unfold frame_g; repeat split|].
+    intros HM. split; [exact HM|].
+    unfold s_ext. rewrite (HN Hle). reflexivity.
+Qed.
+
+Lemma full_tv_eq v sf cs x : full_tv W C v sf cs x = (v, snd (full_tv W C v sf cs x)).
+Proof. reflexivity. Qed.
+
+(* one evaluation: invariants kept; with a valid memo the output is the one of
+   the cache-free evaluation *)
+Lemma evaluate_spec st ns x st' r t :
+  CInv st -> NoG st -> evaluate W C st ns x = (st', r, t) ->
+  CInv st' /\ NoG st' /\ s_cur st' = s_cur st /\ s_srcf st' = s_srcf st /\ s_view st' = s_view st /\
+  (Memo st -> sstep W C (abs st) (Evaluate W ns x) = (abs st', OEval W r) /\ Memo st').
+Proof.
+  intros HI HN. unfold evaluate, sstep, abs; cbn [ss_view ss_evd ss_srcf ss_cur ss_nsg].
+  destruct (s_view st) as [v|] eqn:Ev.
+  2:{ intros E; inversion E; subst. rewrite Ev.
+      split; [exact HI|]. split; [exact HN|]. split; [reflexivity|]. split; [reflexivity|].
+      split; [reflexivity|]. intros HM. split; [reflexivity | exact HM]. }
+  destruct (s_evd st) as [e|] eqn:Ee.
+  2:{ intros E; inversion E; subst. rewrite Ev, Ee.
+      split; [exact HI|]. split; [exact HN|]. split; [reflexivity|]. split; [reflexivity|].
+      split; [reflexivity|]. intros HM. split; [reflexivity | exact HM]. }
+  destruct (gfp_step W C st v x) as [st0 tg] eqn:Eg.
+  destruct (gfp_step_spec _ _ _ _ _ HI HN Ev Eg) as (I0 & N0 & (Gv & Gsf & Gc & Ge & Gn) & HM0).
+  assert (Ev0 : s_view st0 = Some v) by congruence.
+  assert (Ee0 : s_evd st0 = Some e) by congruence.
+  destruct (interp W C st0 (v, s_ext st0) e x) as [[st1 t1] r1] eqn:Ei.
+  destruct (interp_spec _ _ _ _ _ _ _ I0 Ev0 Ee0 Ei) as (R1 & I1 & F1).
+  destruct F1 as (Fs & Fv & Ff & Fc & Fe & Fn & Fb & Fsf & Fgk & Fgv).
   destruct r1 as [o|er].
-  - destruct (pdf_get W C (s_sid st1) (s_bkg st1) (Fbkg W (v, s_srcf st))) as [[b c] computed] eqn:Epg.
+  - destruct (pdf_get W C (s_sid st1) (s_bkg st1) (Fbkg W (v, s_ext st0))) as [[b c] computed] eqn:Epg.
     intros E; inversion E; subst; clear E.
     destruct I1 as (Hl & Hp & Hs & Hb).
     assert (Ev1 : s_view st1 = Some v) by congruence.
-    assert (Hok : pdfc_ok (s_sid st1) (s_bkg st1) (Fbkg W (v, s_srcf st))).
+    assert (Hok : pdfc_ok (s_sid st1) (s_bkg st1) (Fbkg W (v, s_ext st0))).
     { rewrite <- Ff. apply (proj2 Hb v Ev1). }
     destruct (pdf_get_spec _ _ _ _ _ _ (proj1 Hb) Hok Epg) as (E1 & K1 & O1). subst b.
-    cbn. rewrite Fv, Ff, Fc, Fe, Ev, Ee. split; [reflexivity|].
-    apply CInv_set_bkg_nsg; [unfold CInv; auto|].
-    split; [exact K1|]. intros v' Ev'. assert (v' = v) by congruence. subst v'. rewrite Ff. exact O1.
-  - intros E; inversion E; subst; clear E. cbn.
-    rewrite Fv, Ff, Fc, Fe, Fn, Ev, Ee. split; [reflexivity | exact I1].
+    split.
+    { apply CInv_set_bkg_nsg; [unfold CInv; auto|].
+      split; [exact K1|]. intros v' Ev'. assert (v' = v) by congruence. subst v'. rewrite Ff. exact O1. }
+    split; [unfold NoG in *; cbn; intros H; rewrite Fgv; apply N0, H|].
+    cbn. split; [congruence|]. split; [congruence|]. split; [congruence|].
+    intros HM. destruct (HM0 HM) as [M0 Ex]. split.
+    + rewrite (full_tv_eq v (s_srcf st) (s_cur st) x), <- Ex.
+      unfold pure_nsg, pure_eval. rewrite <- R1. cbn.
+      rewrite Fv, Fsf, Fc, Fe, Gv, Gsf, Gc, Ge, Ev, Ee. reflexivity.
+    + unfold Memo in *; cbn. rewrite Fgk, Fgv, Fv, Fsf, Fc. exact M0.
+  - intros E; inversion E; subst; clear E.
+    split; [exact I1|]. split; [unfold NoG in *; intros H; rewrite Fgv; apply N0, H|].
+    split; [congruence|]. split; [congruence|]. split; [congruence|].
+    intros HM. destruct (HM0 HM) as [M0 Ex]. split.
+    + rewrite (full_tv_eq v (s_srcf st) (s_cur st) x), <- Ex.
+      unfold pure_nsg, pure_eval. rewrite <- R1. cbn.
+      rewrite Fv, Fsf, Fc, Fe, Fn, Gv, Gsf, Gc, Ge, Gn, Ev, Ee. reflexivity.
+    + unfold Memo in *. rewrite Fgk, Fgv, Fv, Fsf, Fc. exact M0.
 Qed.
 
 Lemma ns_grad2_spec st ns :
   sstep W C (abs st) (NsGrad2 W ns) = (abs st, ONs2 W (ns_grad2 W st ns)).
 Proof.
-  unfold sstep, ns_grad2, abs; cbn [ss_view ss_evd ss_srcf ss_cur ss_nsg].
+  unfold sstep, ns_grad2, abs, plain_tv; cbn [ss_view ss_evd ss_srcf ss_cur ss_nsg].
   destruct (s_nsg st) as [g|] eqn:En.
   - destruct (ns2_no_cache (Some 0)) eqn:Ek.
     + apply K_ns2_no_cache in Ek. discriminate.
@@ -453,35 +592,143 @@ Qed.
 Lemma abs_init s0 : abs (init W C s0) = sinit W C s0.
 Proof. unfold init. rewrite abs_calc_source. reflexivity. Qed.
 
-(* every operation: same observation as the specification, invariant kept *)
-Lemma step_spec st o st' ob t :
-  CInv st -> step W C st o = (st', ob, t) ->
-  sstep W C (abs st) o = (abs st', ob) /\ CInv st'.
+(* the source data fields hold the values of the current source hypothesis *)
+Definition MC (st : State) : Prop :=
+  s_srcf st = (if has_src_fields C then Some (s_cur st) else None).
+
+Lemma calc_source_gv st s : s_gv (calc_source_fields W C st s) = s_gv st /\
+  s_gkey (calc_source_fields W C st s) = s_gkey st /\ s_cur (calc_source_fields W C st s) = s_cur st.
+Proof. unfold calc_source_fields. destruct (tdm_src_skip (c_nsrc C)); cbn; auto. Qed.
+
+Lemma init_inv s0 : NoG (init W C s0) /\ Memo (init W C s0) /\ MC (init W C s0) /\ s_cur (init W C s0) = s0.
 Proof.
-  intros HI. destruct o as [d|ns x|s|ns]; cbn [step].
-  - intros E; inversion E; subst; clear E. split; [|apply CInv_init_trial; exact HI].
-    unfold sstep, abs, init_trial; cbn. rewrite K_ns2_reset_on_new_trial. reflexivity.
-  - destruct (evaluate W C st ns x) as [[st1 r] t1] eqn:Ee.
-    intros E; inversion E; subst; clear E. apply (evaluate_spec _ _ _ _ _ _ HI Ee).
-  - intros E; inversion E; subst; clear E. split; [|apply CInv_change_source; exact HI].
-    unfold change_source. rewrite abs_calc_source. reflexivity.
-  - intros E; inversion E; subst; clear E. split; [apply ns_grad2_spec | exact HI].
+  unfold init. destruct (calc_source_gv
+    (mkst W tdm_sid_initial None None s0 None (None, 0, None) (None, 0, None)
+       (fun _ => mkpdfc W None None) (mkpdfc W None None) None gfp_initial_value None) s0) as (E1 & E2 & E3).
+  split; [unfold NoG; intros _; rewrite E1; reflexivity|].
+  split; [unfold Memo; intros _ k g v _ Eg; rewrite E1 in Eg; discriminate|].
+  split; [|rewrite E3; reflexivity].
+  unfold MC. rewrite E3. cbn.
+  unfold calc_source_fields, has_src_fields. rewrite K_tdm_src_skip.
+  destruct (c_nsrc C =? 0); reflexivity.
 Qed.
 
-Lemma run_spec ops : forall st, CInv st -> observations W C st ops = srun W C (abs st) ops.
+(* every operation keeps the invariants; with a valid memo it gives the
+   observation of the specification *)
+Lemma step_spec st o st' ob t :
+  CInv st -> NoG st -> step W C st o = (st', ob, t) ->
+  CInv st' /\ NoG st' /\ (MC st -> MC st') /\ s_cur st' = src_after W (s_cur st) [o] /\
+  (Memo st -> sstep W C (abs st) o = (abs st', ob)) /\
+  match o with
+  | ChangeSource _ _ => True
+  | InitTrial _ _ => Memo st'
+  | _ => Memo st -> Memo st'
+  end.
 Proof.
-  induction ops as [|o r IH]; intros st HI; [reflexivity|].
+  intros HI HN. destruct o as [d|ns x|s|ns]; cbn [step].
+  - intros E; inversion E; subst; clear E.
+    split; [apply CInv_init_trial; exact HI|].
+    split; [unfold NoG, init_trial in *; cbn; intros H; rewrite (HN H); destruct (gfp_is_srcevt (c_gfp_srcevt C)); reflexivity|].
+    split; [unfold MC, init_trial; cbn; auto|].
+    split; [reflexivity|].
+    split; [intros _; unfold sstep, abs, init_trial, plain_tv; cbn; rewrite K_ns2_reset_on_new_trial; reflexivity|].
+    unfold Memo, init_trial; cbn. rewrite K_gfp_reset_on_new_trial. intros; discriminate.
+  - destruct (evaluate W C st ns x) as [[st1 r] t1] eqn:Ee.
+    intros E; inversion E; subst; clear E.
+    destruct (evaluate_spec _ _ _ _ _ _ HI HN Ee) as (I1 & N1 & Ec & Esf & Ev & HM).
+    split; [exact I1|]. split; [exact N1|].
+    split; [unfold MC; rewrite Ec, Esf; auto|]. split; [exact Ec|].
+    split; [intros M; apply (HM M) | intros M; apply (HM M)].
+  - intros E; inversion E; subst; clear E.
+    split; [apply CInv_change_source; exact HI|].
+    unfold change_source.
+    match goal with |- context [calc_source_fields W C ?a s] => destruct (calc_source_gv a s) as (E1 & E2 & E3) end.
+    split; [unfold NoG in *; intros H; rewrite E1; cbn; apply HN, H|].
+    split.
+    { intros M. unfold MC in *. rewrite E3. cbn.
+      unfold calc_source_fields, has_src_fields in *. rewrite K_tdm_src_skip.
+      destruct (c_nsrc C =? 0); cbn in *; [exact M | reflexivity]. }
+    split; [rewrite E3; reflexivity|].
+    split; [|exact I]. intros _. rewrite abs_calc_source. reflexivity.
+  - intros E; inversion E; subst; clear E.
+    split; [exact HI|]. split; [exact HN|]. split; [auto|]. split; [reflexivity|].
+    split; [intros _; apply ns_grad2_spec | auto].
+Qed.
+
+Lemma run_spec ops : forall st dirty,
+  CInv st -> NoG st -> (dirty = false -> Memo st) ->
+  memo_free = true \/ wseq W dirty ops = true ->
+  observations W C st ops = srun W C (abs st) ops.
+Proof.
+  induction ops as [|o r IH]; intros st dirty HI HN HM HG; [reflexivity|].
   unfold observations in *. cbn [run srun].
   destruct (step W C st o) as [[st' ob] t] eqn:Es.
-  destruct (step_spec _ _ _ _ _ HI Es) as [E1 I1].
-  rewrite E1. cbn [map fst]. rewrite (IH st' I1). reflexivity.
+  destruct (step_spec _ _ _ _ _ HI HN Es) as (I1 & N1 & _ & _ & Hs & Hm).
+  assert (M : (match o with Evaluate _ _ _ => Memo st | _ => True end)).
+  { destruct o; try exact I. destruct HG as [HF|HW]; [apply Memo_free; assumption|].
+    cbn in HW. apply andb_true_iff in HW. destruct HW as [Hd _]. apply negb_true_iff in Hd. auto. }
+  destruct o as [d|ns x|s|ns].
+  - (* InitTrial *)
+    assert (Memo st \/ True) by auto.
+    assert (E1 : sstep W C (abs st) (InitTrial W d) = (abs st', ob)).
+    { clear - Es. cbn [step] in Es. inversion Es; subst.
+      unfold sstep, abs, init_trial, plain_tv; cbn. rewrite K_ns2_reset_on_new_trial. reflexivity. }
+    rewrite E1. cbn [map fst]. f_equal.
+    apply (IH st' false I1 N1 (fun _ => Hm)).
+    destruct HG as [HF|HW]; [left; exact HF | right; exact HW].
+  - rewrite (Hs M). cbn [map fst]. f_equal.
+    apply (IH st' dirty I1 N1 (fun _ => Hm M)).
+    destruct HG as [HF|HW]; [left; exact HF|]. right. cbn in HW. apply andb_true_iff in HW. apply HW.
+  - assert (E1 : sstep W C (abs st) (ChangeSource W s) = (abs st', ob)).
+    { clear - Es. cbn [step] in Es. inversion Es; subst.
+      unfold change_source. rewrite abs_calc_source. reflexivity. }
+    rewrite E1. cbn [map fst]. f_equal.
+    apply (IH st' true I1 N1); [intros; discriminate|].
+    destruct HG as [HF|HW]; [left; exact HF | right; exact HW].
+  - assert (E1 : sstep W C (abs st) (NsGrad2 W ns) = (abs st', ob)).
+    { clear - Es. cbn [step] in Es. inversion Es; subst. apply ns_grad2_spec. }
+    rewrite E1. cbn [map fst]. f_equal.
+    assert (st' = st) by (cbn [step] in Es; inversion Es; reflexivity). subst st'.
+    apply (IH st dirty I1 N1 HM).
+    destruct HG as [HF|HW]; [left; exact HF | right; exact HW].
 Qed.
 
-(* T1: for every history, on objects built for any source hypothesis, every
-   observation equals the one of the cache-free specification *)
+(* T1: every observation equals the one of the cache-free specification — for
+   every history when no plain global-fit-parameter field exists, and for every
+   history that initialises a new trial after a source change before it
+   evaluates when one exists *)
 Theorem refines s0 ops :
+  c_ngfp C <= 0 \/ c_gfp_srcevt C = true \/ wseq W false ops = true ->
   observations W C (init W C s0) ops = srun W C (sinit W C s0) ops.
-Proof. rewrite <- abs_init. apply run_spec, CInv_init. Qed.
+Proof.
+  intros HG. rewrite <- abs_init. destruct (init_inv s0) as (N & M & _ & _).
+  apply (run_spec ops (init W C s0) false (CInv_init s0) N (fun _ => M)).
+  unfold memo_free. destruct HG as [H|[H|H]].
+  - left. apply orb_true_iff. right. apply Z.leb_le, H.
+  - left. rewrite H. reflexivity.
+  - right. exact H.
+Qed.
+
+(* invariants of the state after any history *)
+Lemma mfinal_inv ops : forall st, CInv st -> NoG st -> MC st ->
+  CInv (mfinal W C st ops) /\ NoG (mfinal W C st ops) /\ MC (mfinal W C st ops) /\
+  s_cur (mfinal W C st ops) = src_after W (s_cur st) ops.
+Proof.
+  induction ops as [|o r IH]; intros st HI HN HC; [auto|].
+  cbn [mfinal]. destruct (step W C st o) as [[st' ob] t] eqn:Es. cbn [fst].
+  destruct (step_spec _ _ _ _ _ HI HN Es) as (I1 & N1 & C1 & Ec & _ & _).
+  destruct (IH st' I1 N1 (C1 HC)) as (A & B & D & E).
+  split; [exact A|]. split; [exact B|]. split; [exact D|].
+  rewrite E, Ec. destruct o; reflexivity.
+Qed.
+
+Lemma run_app a : forall st b,
+  observations W C st (a ++ b) = observations W C st a ++ observations W C (mfinal W C st a) b.
+Proof.
+  induction a as [|o r IH]; intros st b; [reflexivity|].
+  unfold observations in *. cbn [app run mfinal].
+  destruct (step W C st o) as [[st' ob] t] eqn:Es. cbn [fst map]. rewrite IH. reflexivity.
+Qed.
 
 End Refine.
 
@@ -492,36 +739,6 @@ Variable C : cfg.
 
 Definition srcf_of (s : src W) : option (src W) := if has_src_fields C then Some s else None.
 Definition sconsistent (s : sstate W) : Prop := ss_srcf s = srcf_of (ss_cur s).
-
-Lemma sstep_consistent s o : sconsistent s -> sconsistent (fst (sstep W C s o)).
-Proof.
-  unfold sconsistent, srcf_of. intros H. destruct o as [d|ns x|s'|ns]; cbn.
-  - exact H.
-  - destruct (ss_view s); [destruct (ss_evd s)|]; cbn; exact H.
-  - destruct (has_src_fields C); [reflexivity | exact H].
-  - exact H.
-Qed.
-
-Lemma sstep_cur s o :
-  ss_cur (fst (sstep W C s o)) = src_after W (ss_cur s) [o].
-Proof.
-  destruct o as [d|ns x|s'|ns]; cbn; try reflexivity.
-  destruct (ss_view s); [destruct (ss_evd s)|]; reflexivity.
-Qed.
-
-Lemma src_after_cons s o r : src_after W s (o :: r) = src_after W (src_after W s [o]) r.
-Proof. destruct o; reflexivity. Qed.
-
-Lemma sfinal_cur ops : forall s, ss_cur (sfinal W C s ops) = src_after W (ss_cur s) ops.
-Proof.
-  induction ops as [|o r IH]; intros s; [reflexivity|].
-  cbn [sfinal]. rewrite IH, sstep_cur, <- src_after_cons. reflexivity.
-Qed.
-
-Lemma sfinal_consistent ops : forall s, sconsistent s -> sconsistent (sfinal W C s ops).
-Proof.
-  induction ops as [|o r IH]; intros s H; [exact H|]. cbn [sfinal]. apply IH, sstep_consistent, H.
-Qed.
 
 Lemma srun_app a : forall s b, srun W C s (a ++ b) = srun W C s a ++ srun W C (sfinal W C s a) b.
 Proof.
@@ -535,7 +752,7 @@ Proof. reflexivity. Qed.
 
 (* the state right after a trial was initialised with data d *)
 Definition trial_state (c : src W) (d : data W) (n : option (G W)) : sstate W :=
-  mksst W (Some (mkview d c)) (srcf_of c) c (Some (mkview d c, srcf_of c)) n.
+  mksst W (Some (mkview d c)) (srcf_of c) c (Some (plain_tv W (mkview d c) (srcf_of c))) n.
 
 Lemma sstep_init_trial s d :
   sconsistent s -> sstep W C s (InitTrial W d) = (trial_state (ss_cur s) d None, ONone W).
@@ -559,114 +776,116 @@ Proof.
   destruct o; try discriminate. cbn. apply IH, Hr.
 Qed.
 
+Lemma sfinal_app a : forall b s, sfinal W C s (a ++ b) = sfinal W C (sfinal W C s a) b.
+Proof. induction a as [|q r IH]; intros b s; [reflexivity | cbn [app sfinal]; apply IH]. Qed.
+
 Lemma last_mid {A} (a : list A) b c x d : last (a ++ b :: c ++ [x]) d = x.
 Proof.
   replace (a ++ b :: c ++ [x]) with ((a ++ b :: c) ++ [x]) by (rewrite <- app_assoc; reflexivity).
   apply last_last.
 Qed.
 
-Definition cur_tv (c : src W) (d : data W) : tv (data W) (src W) := (mkview d c, srcf_of c).
-
-(* value of the last observation of  pre ++ InitTrial d :: mid ++ [Evaluate ns x] *)
-Lemma srun_eval_last s0 pre d mid ns x :
-  forallb (is_query W) mid = true ->
-  last (srun W C (sinit W C s0) (pre ++ InitTrial W d :: mid ++ [Evaluate W ns x])) (ONone W) =
-  OEval W (pure_eval W C (cur_tv (src_after W s0 pre) d) (cur_tv (src_after W s0 pre) d) ns x).
+Lemma wseq_queries l : forall r, forallb (is_query W) l = true -> wseq W false (l ++ r) = wseq W false r.
 Proof.
-  intros Hq. rewrite srun_app. cbn [srun].
-  pose proof (sfinal_consistent pre _ (sinit_consistent s0)) as Hc.
-  rewrite (sstep_init_trial _ d Hc). rewrite sfinal_cur. cbn [ss_cur sinit].
-  rewrite srun_app. destruct (sfinal_queries mid (src_after W s0 pre) d None Hq) as [n' En].
-  rewrite En. cbn [srun sstep trial_state ss_view ss_evd ss_srcf].
-  rewrite last_mid. reflexivity.
+  induction l as [|o t IH]; intros r H; [reflexivity|].
+  cbn [forallb] in H. apply andb_true_iff in H. destruct H as [Hq Hr].
+  destruct o; try discriminate; cbn; apply IH, Hr.
 Qed.
 
-(* T2: after ANY history, once a trial is initialised with data d, an
-   evaluation returns what freshly built objects (for the current source
-   hypothesis) return for [initialize trial d; evaluate] *)
-Theorem eval_fresh_spec s0 pre d mid ns x :
-  forallb (is_query W) mid = true ->
-  last (srun W C (sinit W C s0) (pre ++ InitTrial W d :: mid ++ [Evaluate W ns x])) (ONone W) =
-  last (srun W C (sinit W C (src_after W s0 pre)) [InitTrial W d; Evaluate W ns x]) (ONone W).
+Lemma ns2_is_query l : forallb (is_ns2 W) l = true -> forallb (is_query W) l = true.
 Proof.
-  intros Hq. rewrite (srun_eval_last s0 pre d mid ns x Hq).
-  change [InitTrial W d; Evaluate W ns x] with ([] ++ InitTrial W d :: [] ++ [Evaluate W ns x]).
-  rewrite (srun_eval_last (src_after W s0 pre) [] d [] ns x eq_refl). reflexivity.
+  induction l as [|o t IH]; intros H; [reflexivity|].
+  cbn [forallb] in *. apply andb_true_iff in H. destruct H as [Hq Hr].
+  destruct o; try discriminate. cbn. apply IH, Hr.
 Qed.
 
-Lemma srun_ns2_last s0 pre d mid ns x tail n o :
-  forallb (is_query W) mid = true -> forallb (is_ns2 W) tail = true ->
-  pure_interp W C (cur_tv (src_after W s0 pre) d) (cur_tv (src_after W s0 pre) d) x = Ok o ->
-  last (srun W C (sinit W C s0)
-          (pre ++ InitTrial W d :: (mid ++ Evaluate W ns x :: tail) ++ [NsGrad2 W n])) (ONone W) =
-  let cur := cur_tv (src_after W s0 pre) d in
-  ONs2 W (Ok (g2 W (nsg_of W o (Fbkg W cur) cur (ns, x)) cur n)).
+(* what the PDFs read in a trial with data d initialised for source c *)
+Definition cur_tvx (c : src W) (d : data W) (x : Z) := full_tv W C (mkview d c) (srcf_of c) c x.
+Definition evd_tv (c : src W) (d : data W) := plain_tv W (mkview d c) (srcf_of c).
+
+Lemma L_eval sp d mid ns x :
+  sconsistent sp -> forallb (is_query W) mid = true ->
+  srun W C sp (InitTrial W d :: mid ++ [Evaluate W ns x]) =
+  ONone W :: srun W C (trial_state (ss_cur sp) d None) mid ++
+    [OEval W (pure_eval W C (cur_tvx (ss_cur sp) d x) (evd_tv (ss_cur sp) d) ns x)].
 Proof.
-  intros Hq Ht Ho. rewrite srun_app. cbn [srun].
-  pose proof (sfinal_consistent pre _ (sinit_consistent s0)) as Hc.
-  rewrite (sstep_init_trial _ d Hc). rewrite sfinal_cur. cbn [ss_cur sinit].
-  rewrite (srun_app (mid ++ Evaluate W ns x :: tail)).
-  cbn [srun sstep]. rewrite last_mid.
-  assert (Ef : exists g, sfinal W C (trial_state (src_after W s0 pre) d None) (mid ++ Evaluate W ns x :: tail)
-               = trial_state (src_after W s0 pre) d (Some g) /\
-               g = nsg_of W o (Fbkg W (cur_tv (src_after W s0 pre) d)) (cur_tv (src_after W s0 pre) d) (ns, x)).
-  { destruct (sfinal_queries mid (src_after W s0 pre) d None Hq) as [n' En].
-    assert (Hsf : forall a b s, sfinal W C s (a ++ b) = sfinal W C (sfinal W C s a) b).
-    { induction a as [|q r IH]; intros b s; [reflexivity | cbn [app sfinal]; apply IH]. }
-    rewrite Hsf, En. cbn [sfinal sstep trial_state ss_view ss_evd ss_srcf ss_cur ss_nsg fst].
-    unfold pure_nsg. fold (cur_tv (src_after W s0 pre) d). rewrite Ho.
-    rewrite (sfinal_ns2 tail _ Ht). eexists; split; reflexivity. }
-  destruct Ef as (g & Ef & Eg). rewrite Ef. subst g. reflexivity.
+  intros Hc Hq. cbn [srun]. rewrite (sstep_init_trial _ d Hc). f_equal.
+  rewrite srun_app. f_equal.
+  destruct (sfinal_queries mid (ss_cur sp) d None Hq) as [n' En]. rewrite En. reflexivity.
 Qed.
 
-(* T3: the second derivative after a successful evaluation of the current
-   trial is the one freshly built objects return *)
-Theorem ns2_fresh_spec s0 pre d mid ns x tail n out :
-  forallb (is_query W) mid = true -> forallb (is_ns2 W) tail = true ->
-  last (srun W C (sinit W C (src_after W s0 pre)) [InitTrial W d; Evaluate W ns x]) (ONone W)
-    = OEval W (Ok out) ->
-  last (srun W C (sinit W C s0)
-          (pre ++ InitTrial W d :: (mid ++ Evaluate W ns x :: tail) ++ [NsGrad2 W n])) (ONone W) =
-  last (srun W C (sinit W C (src_after W s0 pre)) [InitTrial W d; Evaluate W ns x; NsGrad2 W n]) (ONone W).
+Lemma L_ns2 sp d mid ns x tail n o :
+  sconsistent sp -> forallb (is_query W) mid = true -> forallb (is_ns2 W) tail = true ->
+  pure_interp W C (cur_tvx (ss_cur sp) d x) (evd_tv (ss_cur sp) d) x = Ok o ->
+  srun W C sp (InitTrial W d :: (mid ++ Evaluate W ns x :: tail) ++ [NsGrad2 W n]) =
+  ONone W :: srun W C (trial_state (ss_cur sp) d None) (mid ++ Evaluate W ns x :: tail) ++
+    [let cur := cur_tvx (ss_cur sp) d x in
+     ONs2 W (Ok (g2 W (nsg_of W o (Fbkg W cur) cur (ns, x)) (evd_tv (ss_cur sp) d) n))].
 Proof.
-  intros Hq Ht Hok.
-  change [InitTrial W d; Evaluate W ns x] with ([] ++ InitTrial W d :: [] ++ [Evaluate W ns x]) in Hok.
-  rewrite (srun_eval_last (src_after W s0 pre) [] d [] ns x eq_refl) in Hok.
-  cbn [src_after] in Hok. unfold pure_eval in Hok.
-  destruct (pure_interp W C (cur_tv (src_after W s0 pre) d) (cur_tv (src_after W s0 pre) d) x) as [o|er] eqn:Ei;
-    [|cbn in Hok; discriminate].
-  rewrite (srun_ns2_last s0 pre d mid ns x tail n o Hq Ht Ei).
-  change [InitTrial W d; Evaluate W ns x; NsGrad2 W n]
-    with ([] ++ InitTrial W d :: ([] ++ Evaluate W ns x :: []) ++ [NsGrad2 W n]).
-  rewrite (srun_ns2_last (src_after W s0 pre) [] d [] ns x [] n o eq_refl eq_refl Ei). reflexivity.
-Qed.
-
-(* T4: without an evaluation in the current trial calculate_ns_grad2 raises,
-   whatever happened in earlier trials *)
-Theorem ns2_needs_eval_spec s0 pre d tail n :
-  forallb (is_ns2 W) tail = true ->
-  last (srun W C (sinit W C s0) (pre ++ InitTrial W d :: tail ++ [NsGrad2 W n])) (ONone W) =
-  ONs2 W (Err RuntimeError).
-Proof.
-  intros Ht. rewrite srun_app. cbn [srun].
-  pose proof (sfinal_consistent pre _ (sinit_consistent s0)) as Hc.
-  rewrite (sstep_init_trial _ d Hc). rewrite srun_app. cbn [srun sstep]. rewrite last_mid.
+  intros Hc Hq Ht Ho. cbn [srun]. rewrite (sstep_init_trial _ d Hc). f_equal.
+  rewrite srun_app. f_equal.
+  destruct (sfinal_queries mid (ss_cur sp) d None Hq) as [n' En].
+  rewrite sfinal_app, En.
+  cbn [sfinal sstep trial_state ss_view ss_evd ss_srcf ss_cur ss_nsg fst].
+  unfold pure_nsg. fold (cur_tvx (ss_cur sp) d x). fold (evd_tv (ss_cur sp) d). rewrite Ho.
   rewrite (sfinal_ns2 tail _ Ht). reflexivity.
+Qed.
+
+Lemma L_ns2_none sp d tail n :
+  sconsistent sp -> forallb (is_ns2 W) tail = true ->
+  srun W C sp (InitTrial W d :: tail ++ [NsGrad2 W n]) =
+  ONone W :: srun W C (trial_state (ss_cur sp) d None) tail ++ [ONs2 W (Err RuntimeError)].
+Proof.
+  intros Hc Ht. cbn [srun]. rewrite (sstep_init_trial _ d Hc). f_equal.
+  rewrite srun_app. f_equal. rewrite (sfinal_ns2 tail _ Ht). reflexivity.
 Qed.
 
 End Fresh.
 
-(* the same statements for the model with caches *)
+(* the statements about histories, for the model with caches *)
 Section ModelLevel.
 Variable W : world.
 Variable C : cfg.
 Hypothesis Hgrid : grid_ok W.
 
+(* the objects after any history `pre` *)
+Lemma after_pre s0 pre :
+  let stp := mfinal W C (init W C s0) pre in
+  CInv W stp /\ NoG W C stp /\ sconsistent W C (abs W stp) /\ ss_cur (abs W stp) = src_after W s0 pre.
+Proof.
+  cbv zeta. destruct (init_inv W C s0) as (N & _ & M & Ec).
+  destruct (mfinal_inv W C Hgrid pre (init W C s0) (CInv_init W C s0) N M) as (A & B & D & E).
+  split; [exact A|]. split; [exact B|]. split; [exact D|]. cbn. rewrite E, Ec. reflexivity.
+Qed.
+
+Lemma obs_suffix s0 pre d rest :
+  wseq W false rest = true ->
+  observations W C (init W C s0) (pre ++ InitTrial W d :: rest) =
+  observations W C (init W C s0) pre ++
+    srun W C (abs W (mfinal W C (init W C s0) pre)) (InitTrial W d :: rest).
+Proof.
+  intros Hw. rewrite run_app. f_equal.
+  destruct (after_pre s0 pre) as (A & B & _ & _).
+  apply (run_spec W C Hgrid _ _ true A B); [intros; discriminate|]. right. exact Hw.
+Qed.
+
+Lemma obs_fresh c ops :
+  wseq W false ops = true ->
+  observations W C (init W C c) ops = srun W C (sinit W C c) ops.
+Proof. intros H. apply (refines W C Hgrid). right. right. exact H. Qed.
+
 Theorem eval_fresh s0 pre d mid ns x :
   forallb (is_query W) mid = true ->
   last (observations W C (init W C s0) (pre ++ InitTrial W d :: mid ++ [Evaluate W ns x])) (ONone W) =
   last (observations W C (init W C (src_after W s0 pre)) [InitTrial W d; Evaluate W ns x]) (ONone W).
-Proof. intros H. rewrite !(refines W C Hgrid). apply eval_fresh_spec, H. Qed.
+Proof.
+  intros Hq. destruct (after_pre s0 pre) as (_ & _ & Hc & Ec).
+  rewrite obs_suffix by (rewrite (wseq_queries W mid _ Hq); reflexivity).
+  rewrite (L_eval W C _ d mid ns x Hc Hq), last_mid, Ec.
+  rewrite obs_fresh by reflexivity.
+  change [InitTrial W d; Evaluate W ns x] with (InitTrial W d :: [] ++ [Evaluate W ns x]).
+  rewrite (L_eval W C _ d [] ns x (sinit_consistent W C _) eq_refl). reflexivity.
+Qed.
 
 Theorem ns2_fresh s0 pre d mid ns x tail n out :
   forallb (is_query W) mid = true -> forallb (is_ns2 W) tail = true ->
@@ -675,13 +894,39 @@ Theorem ns2_fresh s0 pre d mid ns x tail n out :
   last (observations W C (init W C s0)
           (pre ++ InitTrial W d :: (mid ++ Evaluate W ns x :: tail) ++ [NsGrad2 W n])) (ONone W) =
   last (observations W C (init W C (src_after W s0 pre)) [InitTrial W d; Evaluate W ns x; NsGrad2 W n]) (ONone W).
-Proof. intros H1 H2. rewrite !(refines W C Hgrid). apply ns2_fresh_spec; assumption. Qed.
+Proof.
+  intros Hq Ht Hok. destruct (after_pre s0 pre) as (_ & _ & Hc & Ec).
+  set (c := src_after W s0 pre) in *.
+  (* the fresh evaluation succeeded: the interpolation is defined *)
+  rewrite obs_fresh in Hok by reflexivity.
+  change [InitTrial W d; Evaluate W ns x] with (InitTrial W d :: [] ++ [Evaluate W ns x]) in Hok.
+  rewrite (L_eval W C _ d [] ns x (sinit_consistent W C c) eq_refl) in Hok.
+  cbn [srun app last ss_cur sinit] in Hok. unfold pure_eval in Hok.
+  destruct (pure_interp W C (cur_tvx W C c d x) (evd_tv W C c d) x) as [o|er] eqn:Ei;
+    [|cbn in Hok; discriminate].
+  assert (Hw : wseq W false ((mid ++ Evaluate W ns x :: tail) ++ [NsGrad2 W n]) = true).
+  { rewrite <- app_assoc. rewrite (wseq_queries W mid _ Hq). cbn.
+    rewrite (wseq_queries W tail _ (ns2_is_query W tail Ht)). reflexivity. }
+  rewrite obs_suffix by exact Hw.
+  assert (Ei' : pure_interp W C (cur_tvx W C (ss_cur (abs W (mfinal W C (init W C s0) pre))) d x)
+                  (evd_tv W C (ss_cur (abs W (mfinal W C (init W C s0) pre))) d) x = Ok o)
+    by (rewrite Ec; exact Ei).
+  rewrite (L_ns2 W C _ d mid ns x tail n o Hc Hq Ht Ei'), last_mid, Ec.
+  rewrite obs_fresh by reflexivity.
+  change [InitTrial W d; Evaluate W ns x; NsGrad2 W n]
+    with (InitTrial W d :: ([] ++ Evaluate W ns x :: []) ++ [NsGrad2 W n]).
+  rewrite (L_ns2 W C _ d [] ns x [] n o (sinit_consistent W C c) eq_refl eq_refl Ei). reflexivity.
+Qed.
 
 Theorem ns2_needs_eval s0 pre d tail n :
   forallb (is_ns2 W) tail = true ->
   last (observations W C (init W C s0) (pre ++ InitTrial W d :: tail ++ [NsGrad2 W n])) (ONone W) =
   ONs2 W (Err RuntimeError).
-Proof. intros H. rewrite (refines W C Hgrid). apply ns2_needs_eval_spec, H. Qed.
+Proof.
+  intros Ht. destruct (after_pre s0 pre) as (_ & _ & Hc & _).
+  rewrite obs_suffix by (rewrite (wseq_queries W tail _ (ns2_is_query W tail Ht)); reflexivity).
+  rewrite (L_ns2_none W C _ d tail n Hc Ht), last_mid. reflexivity.
+Qed.
 
 End ModelLevel.
 
@@ -694,28 +939,32 @@ Lemma wfree_grid_ok lb d lo hi : grid_ok (wfree lb d lo hi).
 Proof. unfold grid_ok; cbn. apply zgrid_ok. Qed.
 
 (* ------------------------------------------------------------------ witnesses
-   The two guards of T2/T3 are needed (faithful model = the code): *)
+   The guards of T1-T3 are needed (faithful model = the code): *)
 Definition Wd := wfree 100 100 100 400.
 
-(* after an evaluation that raised (grid value without PDF -> KeyError),
-   calculate_ns_grad2 still returns the second derivative of the previous
-   parameter point, while freshly built objects raise RuntimeError *)
 Lemma ns2_after_failed_evaluate_witness :
-  let C := mkcfg 0 0 0 true false in
+  let C := mkcfg 0 0 0 true false 0 false in
   last (observations Wd C (init Wd C 7)
           [InitTrial Wd 1; Evaluate Wd 5 250; Evaluate Wd 5 950; NsGrad2 Wd 5]) (ONone Wd)
   <> last (observations Wd C (init Wd C 7)
           [InitTrial Wd 1; Evaluate Wd 5 950; NsGrad2 Wd 5]) (ONone Wd).
 Proof. vm_compute. discriminate. Qed.
 
-(* an evaluation after change_shg_mgr without a new trial uses event data that
-   was prepared for the previous source hypothesis (the API asks for a new
-   trial after a source change) *)
 Lemma source_change_without_new_trial_witness :
-  let C := mkcfg 1 0 0 true false in
+  let C := mkcfg 1 0 0 true false 0 false in
   last (observations Wd C (init Wd C 7)
           [InitTrial Wd 1; ChangeSource Wd 8; Evaluate Wd 5 250]) (ONone Wd)
   <> last (observations Wd C (init Wd C 8) [InitTrial Wd 1; Evaluate Wd 5 250]) (ONone Wd).
+Proof. vm_compute. discriminate. Qed.
+
+(* a plain global-fit-parameter field keeps its column when the source changes
+   within a trial: an evaluation at the same parameter value re-uses it *)
+Lemma plain_gfp_memo_witness :
+  let C := mkcfg 0 0 0 true false 1 false in
+  observations Wd C (init Wd C 7)
+    [InitTrial Wd 1; Evaluate Wd 5 250; ChangeSource Wd 8; Evaluate Wd 5 250]
+  <> srun Wd C (sinit Wd C 7)
+    [InitTrial Wd 1; Evaluate Wd 5 250; ChangeSource Wd 8; Evaluate Wd 5 250].
 Proof. vm_compute. discriminate. Qed.
 
 Lemma ns2_after_failed_evaluate_refuted :
@@ -725,7 +974,7 @@ Lemma ns2_after_failed_evaluate_refuted :
     <> last (observations W C (init W C s0)
             [InitTrial W d; Evaluate W ns' x'; NsGrad2 W n]) (ONone W).
 Proof.
-  exists Wd, (mkcfg 0 0 0 true false), 7, 1, 5, 250, 5, 950, 5.
+  exists Wd, (mkcfg 0 0 0 true false 0 false), 7, 1, 5, 250, 5, 950, 5.
   exact ns2_after_failed_evaluate_witness.
 Qed.
 
@@ -735,8 +984,18 @@ Lemma source_change_without_new_trial_refuted :
             [InitTrial W d; ChangeSource W s1; Evaluate W ns x]) (ONone W)
     <> last (observations W C (init W C s1) [InitTrial W d; Evaluate W ns x]) (ONone W).
 Proof.
-  exists Wd, (mkcfg 1 0 0 true false), 7, 8, 1, 5, 250.
+  exists Wd, (mkcfg 1 0 0 true false 0 false), 7, 8, 1, 5, 250.
   exact source_change_without_new_trial_witness.
+Qed.
+
+Lemma plain_gfp_memo_refuted :
+  exists (W : world) (C : cfg) (s0 : src W) (ops : list (op W)),
+    (forall x y, glow W x = glow W y -> gup W x = gup W y) /\
+    observations W C (init W C s0) ops <> srun W C (sinit W C s0) ops.
+Proof.
+  exists Wd, (mkcfg 0 0 0 true false 1 false), 7,
+    [InitTrial Wd 1; Evaluate Wd 5 250; ChangeSource Wd 8; Evaluate Wd 5 250].
+  split; [exact (wfree_grid_ok 100 100 100 400) | exact plain_gfp_memo_witness].
 Qed.
 
 Lemma key_tests_exact :
@@ -744,9 +1003,11 @@ Lemma key_tests_exact :
   (forall c s xc x, par_sid_matches c s && negb (par_key_differs xc x) = true <-> c = Some s /\ xc = x) /\
   (forall c s, pd_cache_invalid c s = false <-> c = Some s) /\
   (forall c s kc k, negb (i3_sid_none c) && negb (i3_sid_differs c s) && negb (i3_key_differs kc k) = true
-                    <-> c = Some s /\ kc = k).
+                    <-> c = Some s /\ kc = k) /\
+  (forall x m, gfp_value_differs x m = false <-> m = Some x).
 Proof.
-  split; [exact K_lin_is_cached|]. split; [|split; [exact K_pd_cache_invalid | exact K_i3_is_cached]].
+  split; [exact K_lin_is_cached|].
+  split; [|split; [exact K_pd_cache_invalid | split; [exact K_i3_is_cached | exact K_gfp_value_differs]]].
   intros c s xc x. rewrite K_par_key_differs, negb_involutive, andb_true_iff, K_par_sid_matches, Z.eqb_eq.
   reflexivity.
 Qed.
